@@ -2,8 +2,9 @@
 
 Workload: direct calls of the real ``FreeEnergy.tracePhase`` (and of
 ``Thermodynamics.findCriticalTemperature`` on two traced phases) on the polynomial model
-zoo (poly1: one field, poly2: two fields), whose phases, spinodal temperatures and
-critical temperature are known in closed form.
+zoo (poly1: one field, poly2: two fields, poly2f: two fields of different scale with a
+fold), whose phases, spinodal temperatures and critical temperature are known in closed
+form.
 
 Monitors (all harness side, nothing in /repo is touched):
   * ``table``      the finished interpolation table ``_interpolationPoints/_Values`` and the
@@ -57,6 +58,28 @@ steps of the real trace), so that the last RK45 step is a rounding remainder; an
 short of the request *and* flagged is reported as
 rounding-remainder-before-range-end-flagged-as-disappearance.
 
+Per-field scales (added after seeded change C10c, which the single-scale workload could not
+see): the user's ``fieldValueVariationScale`` may be a list, and tracePhase measures its
+"the re-minimisation moved the point to another phase" test against one of them.  Extra
+cases run the two-scale fold model poly2f (models.potentials.Poly2F: a spectator field u
+with vev v next to the field p that distinguishes the phases; low phase ends in a *fold*,
+so beyond it the minimiser really does run to the other phase -- unlike poly2, whose
+symmetry-protected saddle keeps the point in place) with scales in a ratio 10..100 in both
+assignments: "A" v >> p, small scale on the field that jumps; "B" weak fold, the large
+scale (zero-temperature vev of p) on the field that jumps, the small one on u.  The
+requested range mostly runs past the fold and the mass-squared test is stressed: rTol up
+to 1e-4 (kept a factor 30 below the barrier gradient), dT up to 0.3 of the interval,
+paranoid on/off, ``spinodal`` on/off.  No new oracle: the table / range / flag oracle
+above decides.  The minimiser monitor also yields the workload evidence the floors ask
+for: traces in which a re-minimisation moved the point by more than a tenth of the
+smallest and less than a tenth of the largest scale (``hier:jump-between-scales``).
+With ``spinodal=False`` the caller has switched the mass-squared test off; what remains is
+the gradient control, so inside the slack zone before the fold the Hessian tolerance is
+the curvature a point with |grad V| <= g can have there (c11_branches.fold_geometry).
+A hop whose first off-branch row was reached by an RK45 step that moved the point further
+than the re-minimisation after it (ODE monitor: |y - y_old|) is reported under its own
+name, hop-across-spinodal-completed-by-reminimisation-smaller-than-ode-step.
+
 Deviations from DESIGN C11, each forced by what the unchanged tree showed:
   * the T slack K*rTol*T is kept for folds but has a floor rTol >= 1e-6, is scaled by
     (T0/T_end)^3 (tolerances in tracePhase are relative to the *starting* temperature) and
@@ -84,6 +107,12 @@ RULE = ("tracePhase cases: family poly1|poly2 x phase low|high x unit factor {1e
         "each end same / wider by 0.3..20 dT / narrower to 35..95 % of the remembered range / "
         "exactly the remembered end, paranoid kept or toggled), every call judged.  Extra "
         "cases: both ends deep inside, one or both placed -1..+3 ulp around a tracer step.  "
+        "Per-field-scale cases: family poly2f (two fields of different natural scale, fold "
+        "end) x assignment A (v = 12..100 p, scales (v, {.5,1} p)) | B (weak fold, scales "
+        "(p(0)/10..100, p(0))) x unit {1,1e2} x relabelling x low phase x upper end "
+        "{past 75 %, near 15 %, deep 10 %} x dT log-uniform in [1e-2, 0.3] of the interval x "
+        "rTol in {1e-4,1e-5,1e-5,1e-6} capped at 1/30 of the barrier gradient x paranoid on/off "
+        "x spinodal on (60 %)/off.  "
         "findCriticalTemperature cases: both phases traced inside their "
         "coexistence interval around T_c.  Non-trivial: a decided trace whose requested "
         "range reaches within 5 dT of, or beyond, a spinodal (resp. a decided T_c); "
@@ -101,6 +130,18 @@ ASSUMPTIONS = [
     "but the presence/absence of the flag is not judged there; the same holds for every "
     "request that reaches a soft end",
     "poly2 draws are restricted to sub-critical transverse instabilities (lh*ls < lhs^2/4)",
+    "poly2f (per-field-scale cases): parameters with the rounding noise of V at most 10 x "
+    "that of a*T^4 and rTol*T0^3 at most 1/30 of the largest gradient between the two "
+    "minima at the fold (below that a gradient tolerance in units of T0^3 does not resolve "
+    "the barrier; observed there: rows scattered between the phases at rTol = 1e-4); unit "
+    "factors 1 and 100 only -- at unit 0.01 scipy's absolute forward-difference step "
+    "(1.49e-8) inside findLocalMinimum leaves a phantom gradient l1*v^2*h >= 3e-5*T0^3 along "
+    "the stiff field u, BFGS ends in 'precision loss' and rows pass the fold by up to 2.2 x "
+    "the slack (8 of 1460 such traces while probing; recorded here, not exercised)",
+    "spinodal=False is exercised on poly2f only: past the transverse instability of a poly2 "
+    "phase the symmetric saddle has an exactly vanishing gradient, so with the caller's "
+    "mass-squared test off nothing in tracePhase can notice it (taken as the documented "
+    "meaning of the option, not judged)",
     "a further tracePhase call on the same object is judged against the request clipped to "
     "the range the object advertised before the call (tracePhase's 'maximum temperature "
     "range'); that a re-trace cannot widen the range is taken as designed, not judged; a "
@@ -112,14 +153,15 @@ CHUNK = 2
 K_TOL = 10.0          # DESIGN 2.3-3 safety factor on documented accuracy models
 N_INTERP = 200
 
-# history / step-commensurate floors: ~55 % of the smallest count over quick seeds 0..4 resp.
-# thorough seed 0 on the unchanged tree
+# history / step-commensurate / per-field-scale floors: ~55 % of the smallest count over quick
+# seeds 0..4 (0..7 for hier:*) resp. thorough seed 0 on the unchanged tree
 FLOORS = {
     "quick": {"distinct_nontrivial": 30,
               "mon": {"table_rows": 3000, "minimiser_calls": 1000, "interp_points": 4000,
                       "ode_steps": 3000,
                       "traces_decided": 60, "tc_decided": 6,
-                      "retraces_decided": 55, "retrace_rows_compared": 1500, "ulpstep_ends": 6},
+                      "retraces_decided": 55, "retrace_rows_compared": 1500, "ulpstep_ends": 6,
+                      "hier_traces_decided": 30, "hier_jumps_between_scales": 13},
               "cls": {"end:past": 25, "end:near": 12, "judged:hi:past": 8,
                       "judged:hi:inside": 25, "paranoid": 30, "nonparanoid": 20,
                       "unit:0.01": 15, "unit:1": 15, "unit:100": 15, "guess:int-dtype": 4,
@@ -134,12 +176,26 @@ FLOORS = {
                       "retrace:hi:edge": 4, "retrace:lo:edge": 5,
                       # requested end a few ulp beyond a tracer step
                       "ulpstep:lo:beyond": 3, "ulpstep:hi:beyond": 1,
-                      "ulpstep:lo:beyond:remainder-below-1e-16-T0": 1}},
+                      "ulpstep:lo:beyond:remainder-below-1e-16-T0": 1,
+                      # per-field scales: both assignments, both index orders, range past the
+                      # fold, mass-squared test on and off, and -- the point of the workload --
+                      # traces in which a re-minimisation moved the point by an amount between
+                      # a tenth of the smallest and a tenth of the largest scale
+                      "hier:A": 15, "hier:B": 11, "hier:A:past": 10, "hier:B:past": 8,
+                      "hier:spinodal-on": 14, "hier:spinodal-off": 11, "hier:rTol:1e-05": 15,
+                      "hier:small-scale-on-code-field-0": 10,
+                      "hier:small-scale-on-code-field-1": 14,
+                      "hier:jump-between-scales": 13,
+                      "hier:jump-between-scales:paranoid": 5,
+                      "hier:jump-between-scales:nonparanoid": 7,
+                      "hier:jump-between-scales:spinodal-on": 4,
+                      "hier:jump-between-scales:spinodal-off": 8}},
     "thorough": {"distinct_nontrivial": 800,
                  "mon": {"table_rows": 100000, "minimiser_calls": 30000, "ode_steps": 100000,
                          "interp_points": 150000, "traces_decided": 1600, "tc_decided": 150,
                          "retraces_decided": 1400, "retrace_rows_compared": 60000,
-                         "ulpstep_ends": 120},
+                         "ulpstep_ends": 120,
+                         "hier_traces_decided": 480, "hier_jumps_between_scales": 250},
                  "cls": {"end:past": 600, "end:near": 300, "judged:hi:past": 200,
                          "judged:hi:inside": 600, "judged:lo:past": 10, "paranoid": 800,
                          "nonparanoid": 500, "unit:0.01": 400, "unit:1": 400,
@@ -156,7 +212,16 @@ FLOORS = {
                          "retrace:lo:narrower": 300, "retrace:hi:edge": 100, "retrace:lo:edge": 100,
                          "retrace:hi:edge:was-flagged": 20,
                          "ulpstep:lo:beyond": 60, "ulpstep:hi:beyond": 30,
-                         "ulpstep:lo:beyond:remainder-below-1e-16-T0": 8}},
+                         "ulpstep:lo:beyond:remainder-below-1e-16-T0": 8,
+                         "hier:A": 250, "hier:B": 220, "hier:A:past": 200, "hier:B:past": 180,
+                         "hier:spinodal-on": 280, "hier:spinodal-off": 200,
+                         "hier:rTol:1e-05": 230, "hier:small-scale-on-code-field-0": 230,
+                         "hier:small-scale-on-code-field-1": 250,
+                         "hier:jump-between-scales": 250,
+                         "hier:jump-between-scales:paranoid": 130,
+                         "hier:jump-between-scales:nonparanoid": 115,
+                         "hier:jump-between-scales:spinodal-on": 85,
+                         "hier:jump-between-scales:spinodal-off": 160}},
 }
 
 EPS = float(np.finfo(float).eps)
@@ -225,6 +290,109 @@ def _rand_poly2(rng, want_lower=False):
     raise RuntimeError("poly2 draw failed")
 
 
+def _rand_poly2f(rng, order):
+    """Two fields of different natural scale with a fold end (models.potentials.Poly2F).
+    Returns (spec, per-field scales in physical order (u, p), in units of s).
+
+    order "A": v = 12..100 x the vev of p at T_c; scales (v, {0.5,1} x p(T_c)) -- the small
+               scale sits on the field that distinguishes the phases (the one that jumps at
+               the fold), the large one on the spectator u;
+    order "B": a weak fold, p(T=0) = 12..25 x p(fold); scales (p(0)/ratio, p(0)) with ratio
+               10..100 -- the large scale (the zero-temperature vev) sits on the field that
+               jumps, the small one on u, which moves by O(kap p^2/(l1 v)) only.
+    In both the jump of the minimiser across the fold (~ p(fold)) lies between a tenth of
+    the smaller and a tenth of the larger scale."""
+    from wgverif.models import potentials as P
+    for _ in range(10000):
+        g = float(rng.choice([10, 20, 40, 80]))
+        if order == "A":
+            lamEff = float(rng.uniform(0.05, 0.25))
+            D = float(rng.uniform(0.2, 0.9))
+        else:
+            # small quartic, large thermal mass: a zero-temperature vev of 5..13 T0, so that
+            # the vev at the (weak) fold is still 0.25..1 T and the barrier resolvable
+            lamEff = float(rng.uniform(0.01, 0.04))
+            D = float(rng.uniform(0.5, 0.9))
+        l1 = float(rng.uniform(0.05, 0.3))
+        kap = float(rng.uniform(0.002, 0.03) * rng.choice([-1.0, 1.0]))
+        if order == "A":
+            E = float(rng.uniform(0.03, 0.12))
+        else:
+            rho = float(rng.uniform(12.0, 20.0))          # p(T=0)/p(fold), T1 ~ T0
+            E = (2.0 / 3.0) * math.sqrt(2 * D * lamEff) / rho
+        if 8 * lamEff * D - 9 * E * E <= 0.25 * 8 * lamEff * D or lamEff * D - E * E <= 0:
+            continue          # keep T1/T0 below 2 and T_c finite (as for poly1)
+        lam = lamEff + 4 * kap * kap / l1
+        Tc = math.sqrt(lamEff * D / (lamEff * D - E * E))
+        p_ref = 2 * E * Tc / lamEff                       # p_+(T_c)
+        p_zero = math.sqrt(2 * D / lamEff)                # p_+(0), T0 = 1
+        if order == "A":
+            v = p_ref * float(10 ** rng.uniform(math.log10(12), 2))
+            scales = [v, float(rng.choice([0.5, 1.0])) * p_ref]
+        else:
+            v = p_zero * float(rng.uniform(0.5, 2.0))
+            scales = [p_zero / float(10 ** rng.uniform(1, 2)), p_zero]
+        # keep the model well conditioned for scipy's forward-difference gradients: the
+        # rounding noise of V (cancellation u^2 - v^2, c11_branches.fold_geometry) at most
+        # 10 x that of the thermal term a T^4
+        T1 = math.sqrt(8 * lamEff * D / (8 * lamEff * D - 9 * E * E))
+        p_fold = 3 * E * T1 / (2 * lamEff)
+        if 2 * abs(kap) * p_fold ** 2 * v ** 2 > 10.0 * (g * math.pi ** 2 / 90) * T1 ** 4:
+            continue
+        # largest gradient of the reduced potential between the two minima at the fold,
+        # V' = lamEff p (p - p_fold)^2 at T1, in units of T1^3: the tracer's gradient
+        # tolerances rTol*T0^3 mean something only well below it
+        g_bar = (4.0 / 27.0) * lamEff * (p_fold / T1) ** 3
+        if g_bar < 30 * 1e-6:
+            continue
+        spec = {"family": "poly2f", "a": g * math.pi ** 2 / 90, "l1": l1, "v": v, "kap": kap,
+                "D": D, "E": E, "lam": lam, "T0": 1.0}
+        try:
+            P.build_potential({**spec, "s": 1.0})
+        except ValueError:
+            continue
+        return spec, scales, g_bar
+    raise RuntimeError("poly2f draw failed")
+
+
+def _draw_hier_case(rng, i):
+    """Hierarchical per-field fieldValueVariationScale (ratio 10..100, both assignments) on
+    the two-scale fold model, low phase, requested range mostly past the fold, with the
+    mass-squared test of tracePhase stressed: coarse rTol, large dT, spinodal=False."""
+    order = "A" if rng.random() < 0.55 else "B"
+    spec, scales, g_bar = _rand_poly2f(rng, order)
+    # coarse tolerances stress the mass-squared test (the solver steps over the fold), but
+    # stay a factor 30 below the barrier gradient
+    rtols = [r for r in (1e-4, 1e-5, 1e-5, 1e-6) if 30 * r <= g_bar]
+    # unit factors 1 and 100 only: see ASSUMPTIONS (scipy's absolute forward-difference step
+    # along the stiff field u at unit 0.01)
+    spec["s"] = float(rng.choice([1.0, 1e2]))
+    spec.update(_rand_affine(rng, 2))
+    r = rng.random()
+    hi = ({"mode": "past", "x": float(10 ** rng.uniform(-0.5, 1.3))} if r < 0.75 else
+          {"mode": "near", "x": float(10 ** rng.uniform(math.log10(0.05), math.log10(5)))}
+          if r < 0.9 else {"mode": "deep", "x": float(rng.uniform(0.3, 0.9))})
+    fs = rng.random()
+    gp = rng.random()
+    return {
+        "kind": "trace", "i": i, "spec": spec, "phase": "low",
+        "hier": {"order": order, "scales_phys": [float(x) for x in scales],
+                 "barrier_gradient_over_T1cubed": g_bar},
+        "spinodal": bool(rng.random() < 0.6),
+        "u0": float(rng.uniform(0.3, 0.97)),
+        "dT_frac": float(10 ** rng.uniform(-2, math.log10(0.3))),
+        "rTol": float(rng.choice(rtols)),
+        "paranoid": bool(rng.random() < 0.5),
+        "first": None if fs < 0.7 else float(rng.choice([1e-2, 0.1, 0.5])),
+        "lo": {"mode": "deep", "x": float(rng.uniform(0.1, 0.9))}, "hi": hi,
+        "guess_pert": 0.0 if gp < 0.5 else float(rng.choice([1e-4, 1e-3])),
+        "tscale": float(rng.choice([0.3, 1.0, 3.0])),
+        "fscale": 1.0,
+        "retrace": [],
+        "s": int(rng.integers(1 << 30)),
+    }
+
+
 def _end_mode(rng, lower=False):
     r = rng.random()
     if lower and r < 0.08:
@@ -286,7 +454,9 @@ def generate(tier, seed):
     # the first-call population
     rng_h = np.random.default_rng(11500 + int(seed))
     rng_u = np.random.default_rng(11700 + int(seed))
+    rng_s = np.random.default_rng(11900 + int(seed))
     n_tr, n_tc, n_ulp = (110, 14, 20) if tier == "quick" else (2600, 300, 300)
+    n_hier = 56 if tier == "quick" else 900
     cases = []
     for i in range(n_tr):
         cases.append(_draw_trace_case(rng, i))
@@ -331,6 +501,10 @@ def generate(tier, seed):
                 c[sd] = {"mode": "deep", "x": float(rng_u.uniform(0.3, 0.8))}
         c["retrace"] = []
         cases.append(c)
+    # hierarchical per-field scales on the two-scale fold model (own stream, appended last so
+    # that the populations above are what they were)
+    for i in range(n_hier):
+        cases.append(_draw_hier_case(rng_s, n_tr + n_tc + n_ulp + i))
     return cases
 
 
@@ -340,13 +514,23 @@ def _build(case):
     from wgverif.models import potentials as P
     pot = P.build_potential(case["spec"])
     fam = case["spec"]["family"]
-    if fam == "poly1":
+    if fam in ("poly1", "poly2f"):
         w0 = pot.T1() - pot.T0
         tref = pot.Tc()
     else:
         tref = pot.Tc()
         w0 = 0.1 * tref
     fref = float(pot.field_scale(tref))
+    if case.get("hier"):
+        # per-field scales, given for the physical fields (u, p) in units of s; code field i
+        # is +-phi_perm[i] + b_i, so it gets the scale of phi_perm[i].  The temperature scale
+        # is not tied to the (possibly very narrow) interval T1 - T0 of a weak fold.
+        phys = np.asarray(case["hier"]["scales_phys"], dtype=float) * pot.s
+        perm = case["spec"].get("perm") or [0, 1]
+        pot.configureDerivatives(WallGo.VeffDerivativeSettings(
+            temperatureVariationScale=float(case["tscale"] * max(w0, 0.03 * pot.T0)),
+            fieldValueVariationScale=[float(phys[perm[0]]), float(phys[perm[1]])]))
+        return pot, w0, tref, fref
     pot.configureDerivatives(WallGo.VeffDerivativeSettings(
         temperatureVariationScale=float(case["tscale"] * w0),
         fieldValueVariationScale=float(case["fscale"] * fref)))
@@ -357,7 +541,7 @@ def _working_interval(pot, phase):
     from wgverif.oracles import c11_branches as B
     ends = B.end_types(pot, phase)
     (tlo, klo), (thi, khi) = ends["lo"], ends["hi"]
-    if type(pot).__name__ == "Poly1":
+    if type(pot).__name__ in ("Poly1", "Poly2F"):
         w0 = pot.T1() - pot.T0
         a, b = (pot.T0, pot.T0 + 2 * w0) if phase == "high" else (pot.T1() - 2 * w0, pot.T1())
     else:
@@ -393,6 +577,7 @@ class MinimiserRecorder:
         import scipy.integrate as si
         self.pot.findLocalMinimum = self          # instance attribute shadows the method
         self.steps = []                            # [(integration, t, status)]
+        self.moves = {}                # t after the step -> (|y - y_old| in code fields, t_old)
         self.integrations = 0
         recorder = self
         base = si.RK45
@@ -407,6 +592,13 @@ class MinimiserRecorder:
             def step(self):
                 out = super().step()
                 recorder.steps.append((self._wg_id, float(self.t), self.status))
+                if self.t_old is not None and self.t != self.t_old:
+                    try:
+                        recorder.moves[float(self.t)] = (float(np.linalg.norm(
+                            np.asarray(self.y, dtype=float) - np.asarray(self.y_old, dtype=float))),
+                            float(self.t_old))
+                    except Exception:
+                        pass
                 return out
 
         si.RK45 = RecordingRK45
@@ -530,12 +722,22 @@ def judge_table(pot, phase, fe, req, rec, obs, viol, mon):
     # scale.  How far a residual gradient of relative size g moves the end of the tilted
     # potential depends on the end type: a fold linearly (g*T), a sub-critical transverse
     # instability like g^(2/3) (imperfect pitchfork), a soft end like sqrt(g).
-    r_eff = max(rTol, R_FLOOR)
+    #
+    # Two-scale fold model (Poly2F): the same accuracy model with its two constants taken
+    # from the closed-form geometry of the fold instead of "A = T^2, noise of V = eps*a*T^4"
+    # (c11_branches.fold_geometry): the floor is multiplied by the factor by which the
+    # evaluation noise of V exceeds eps*a*T^4 (the cancellation u^2 - v^2 with v >> p), and
+    # the overshoot g*T0^3/A uses the actual A = |n.d(grad V)/dT| (A << T^2 at a weak fold,
+    # where the vev at the fold is small against T); never tighter than the one-field formula.
+    fg = B.fold_geometry(pot) if (type(pot).__name__ == "Poly2F" and khi == "fold") else None
+    r_eff = max(rTol, R_FLOOR * (fg["noise"] if fg else 1.0))
 
     def slack_of(tend, kind):
         if kind == "none" or not math.isfinite(tend) or tend <= 0:
             return 0.0
         g = min(1.0, K_TOL * r_eff * max(1.0, (req["T0"] / tend) ** 3))
+        if kind == "fold" and fg:
+            return min(1.0, g * max(1.0, tend * tend / fg["A"])) * tend
         if kind == "fold":
             return g * tend
         if kind == "unstable":
@@ -618,6 +820,8 @@ def judge_table(pot, phase, fe, req, rec, obs, viol, mon):
         strictly_in &= X > tlo
     if hard(khi):
         res["overshoot_hi_over_rTolT"] = float((X[-1] - thi) / (rTol * thi))
+        if slack_hi > 0:
+            res["overshoot_hi_over_slack"] = float((X[-1] - thi) / slack_hi)
     if hard(klo):
         res["overshoot_lo_over_rTolT"] = float((tlo - X[0]) / (rTol * tlo))
 
@@ -697,7 +901,38 @@ def judge_table(pot, phase, fe, req, rec, obs, viol, mon):
              "off_branch_rows": len(hop_rows), "minimiser_hop": hop_call,
              "last_on_branch_row": {"T": float(X[k - 1]), "phi": phi[k - 1].tolist()} if k else None}
         beyond = bool((hard(khi) and X[k] > thi) or (hard(klo) and X[k] < tlo))
-        if hop_call and hop_call["near_end"]:
+        # what brought the first off-branch row there: the RK45 step onto that temperature
+        # (|y - y_old|, from the ODE monitor) and the re-minimisation at it (|result - guess|,
+        # from the minimiser monitor).  Beyond a spinodal, a re-minimisation that moved the
+        # point *less* than the ODE step itself had moved it completes a hop that the step
+        # across the spinodal began; it is reported under its own name.
+        moved, t_from = getattr(rec, "moves", {}).get(float(X[k]), (None, None))
+        # the accepted step started on the branch (inside the existence interval, up to the
+        # slack) and ended beyond the closed-form spinodal: it is the step that crossed it
+        crossed = bool(t_from is not None and (
+            (hard(khi) and X[k] > thi and t_from <= thi + slack_hi) or
+            (hard(klo) and X[k] < tlo and t_from >= tlo - slack_lo)))
+        jump_k = None
+        for (t, g, r, tol) in rec.calls[1:]:
+            if t == X[k]:
+                jump_k = float(np.linalg.norm(r - g))
+        fsc_ = np.asarray(pot.derivativeSettings.fieldValueVariationScale, dtype=float)
+        d["step_onto_first_off_branch_row"] = {
+            "ode_step_moved": moved, "ode_step_from_T": t_from, "crossed_spinodal": crossed,
+            "reminimisation_moved": jump_k,
+            "smallest_field_scale": float(fsc_.min()), "largest_field_scale": float(fsc_.max())}
+        if beyond and crossed and moved is not None and jump_k is not None and 0.0 < jump_k <= moved:
+            mech = "hop-across-spinodal-completed-by-reminimisation-smaller-than-ode-step"
+            msg = (f"{phase} phase traced from T0={req['T0']:.6g} over [{req['TMin']:.6g},"
+                   f"{req['TMax']:.6g}] (exists on [{tlo:.6g},{thi:.6g}], rTol={rTol:g}, paranoid="
+                   f"{req['paranoid']}): the RK45 step onto T={X[k]:.9g} "
+                   f"({abs(X[k] - (thi if X[k] > thi else tlo)) / dT:.2g} dT beyond the spinodal) moved "
+                   f"the point by {moved:.4g} from {phi[k - 1].tolist() if k else None}, the "
+                   f"re-minimisation there by a further {jump_k:.4g} onto {phi[k].tolist()} "
+                   f"('{lab}' minimum; field scales {fsc_.tolist()}); {len(hop_rows)} of {X.size} rows "
+                   f"are on another phase, table runs to [{X[0]:.6g},{X[-1]:.6g}], flags "
+                   f"{data0['minPossibleTemperature'][1]}/{data0['maxPossibleTemperature'][1]}")
+        elif hop_call and hop_call["near_end"]:
             mech = ("paranoid-hop-across-spinodal" if req["paranoid"]
                     else "reminimisation-hop-across-spinodal")
             msg = (f"{phase} phase traced from T0={req['T0']:.6g} over [{req['TMin']:.6g},"
@@ -751,6 +986,14 @@ def judge_table(pot, phase, fe, req, rec, obs, viol, mon):
     fsc = np.asarray(pot.derivativeSettings.fieldValueVariationScale, dtype=float)
     dxmin = float(np.min(fsc)) * 1e-15 ** (1.0 / 6.0)
     tolH = 200 * EPS * np.abs(Vrow) / dxmin ** 2
+    if fg and not req.get("spinodal", True) and slack_hi > 0:
+        # mass-squared test switched off by the caller: what is left is the gradient control
+        # |grad V| <= g.  Within g/A of the fold (the slack zone before it) a point with
+        # |n.grad V| <= g has a curvature >= -sqrt(4 V3 g) along n (fold_geometry); g as in
+        # slack_of (absolute units)
+        g_abs = min(1.0, K_TOL * r_eff * max(1.0, (req["T0"] / thi) ** 3)) * thi ** 3
+        tolH = np.where(X > thi - slack_hi,
+                        np.maximum(tolH, math.sqrt(4.0 * fg["V3"] * g_abs)), tolH)
     res["min_hess_eig_over_tol"] = float(np.min(ev[strictly_in] / tolH[strictly_in])) \
         if strictly_in.any() else 0.0
     neg = [k for k in np.nonzero((ev < -tolH) & strictly_in)[0] if k not in hop_idx]
@@ -1052,6 +1295,27 @@ def _ulp_place(pot, case, t_start, dT, rTol, first, guess, nominal):
     return (out[0], out[1]), info
 
 
+def _hier_window(rec, fsc, obs, cls, mon, paranoid, spinodal):
+    """Workload evidence for the per-field-scale cases (classification only, no verdict):
+    did a re-minimisation of this trace move the point by more than a tenth of the
+    *smallest* field scale but less than a tenth of the *largest*?  That is the situation
+    in which it matters which of the user's scales a "moved to another phase" test of the
+    tracer is measured against.  The displacement is read off the minimiser log (code
+    fields; the affine map is an isometry)."""
+    best = None
+    for (t, g, r, tol) in rec.calls[1:]:
+        j = float(np.linalg.norm(r - g))
+        if 0.1 * fsc.min() < j <= 0.1 * fsc.max() and (best is None or j > best["jump"]):
+            best = {"T": t, "jump": j, "over_min_scale": j / float(fsc.min()),
+                    "over_max_scale": j / float(fsc.max())}
+    if best:
+        obs["hier"]["reminimisation_jump_between_scales"] = best
+        mon["hier_jumps_between_scales"] = mon.get("hier_jumps_between_scales", 0) + 1
+        cls += ["hier:jump-between-scales",
+                "hier:jump-between-scales:" + ("paranoid" if paranoid else "nonparanoid"),
+                "hier:jump-between-scales:spinodal-" + ("on" if spinodal else "off")]
+
+
 def _case_trace(case):
     import WallGo
     from WallGo import Fields
@@ -1093,8 +1357,12 @@ def _case_trace(case):
         (TMin, TMax), placed = _ulp_place(pot, case, t_start, dT, rTol, first, guess, (TMin, TMax))
         mlo = "ulpstep" if placed.get("lo", {}).get("status") == "placed" else mlo
         mhi = "ulpstep" if placed.get("hi", {}).get("status") == "placed" else mhi
+    hier = case.get("hier")
+    spinodal = bool(case.get("spinodal", True))
     key = (f"tr:{case['spec']['family']}:{phase}:{case['spec']['s']:g}:{mlo}/{mhi}:"
            f"{rTol:g}:{int(case['paranoid'])}:{case['s'] % 9973}")
+    if hier:
+        key += f":{hier['order']}:{int(spinodal)}"
     mon = {"traces_run": 1, "traces_decided": 0, "minimiser_calls": 0}
     obs = {"model": {k: v for k, v in case["spec"].items()}, "t_start": t_start,
            "first_step": first, "guess_pert": case["guess_pert"], "W": W}
@@ -1109,13 +1377,25 @@ def _case_trace(case):
                                               "paranoid" if case["paranoid"] else "nonparanoid"]
     if int_guess:
         cls.append("guess:int-dtype")
+    kw = {}
+    if hier:
+        fsc = np.asarray(pot.derivativeSettings.fieldValueVariationScale, dtype=float)
+        obs["hier"] = {"order": hier["order"], "scales_code": fsc.tolist(),
+                       "scale_ratio": float(fsc.max() / fsc.min()), "spinodal": spinodal}
+        cls += [f"hier:{hier['order']}", f"hier:{hier['order']}:{mhi}",
+                "hier:spinodal-" + ("on" if spinodal else "off"), f"hier:rTol:{rTol:g}",
+                "hier:small-scale-on-code-field-" + str(int(np.argmin(fsc)))]
+        mon["hier_traces_run"] = 1
+        kw["spinodal"] = spinodal          # the default (True) is left implicit elsewhere
     try:
         try:
             fe.tracePhase(TMin, TMax, dT, rTol=rTol, paranoid=case["paranoid"],
-                          phaseTracerFirstStep=first)
+                          phaseTracerFirstStep=first, **kw)
         finally:
             rec.remove()
             mon["minimiser_calls"] = len(rec.calls)
+            if hier:
+                _hier_window(rec, fsc, obs, cls, mon, case["paranoid"], spinodal)
     except AssertionError as exc:
         avail = min(TMax, thi) - max(TMin, tlo)
         obs.update(refused=str(exc)[:120], available_over_dT=avail / dT)
@@ -1159,10 +1439,23 @@ def _case_trace(case):
         return {"key": key, "cls": cls + ["raised"], "nontrivial": True, "obs": obs,
                 "viol": viol, "mon": mon}
     req = {"T0": t_start, "TMin": TMin, "TMax": TMax, "dT": dT, "rTol": rTol,
-           "paranoid": case["paranoid"], "seed": case["s"]}
+           "paranoid": case["paranoid"], "seed": case["s"], "spinodal": spinodal}
     res = judge_table(pot, phase, fe, req, rec, obs, viol, mon)
+    if hier:
+        # a hop whose re-minimisation moved the point by more than a tenth of the smallest but
+        # less than a tenth of the largest of the user's field scales: named separately (it is
+        # the per-field-scale workload that can tell which scale a jump test is measured by)
+        hc = obs.get("minimiser_hop")
+        j = float(np.linalg.norm(np.asarray(hc["result"]) - np.asarray(hc["guess"]))) if hc else None
+        for v in viol:
+            if v["mech"] in ("paranoid-hop-across-spinodal", "reminimisation-hop-across-spinodal") \
+                    and j is not None and 0.1 * fsc.min() < j <= 0.1 * fsc.max():
+                v["data"]["hop_moved_over_field_scales"] = [j / float(fsc.min()), j / float(fsc.max())]
+                v["mech"] += ":jump-between-tenth-of-smallest-and-largest-field-scale"
     obs["res"] = res
     mon["traces_decided"] = 1
+    if hier:
+        mon["hier_traces_decided"] = 1
     # non-trivial: requested range reaches within 5 dT of, or beyond, a spinodal
     nontriv = False
     for side, reqT in (("lo", TMin), ("hi", TMax)):
@@ -1470,6 +1763,24 @@ def summarize(results, tier):
                 soft[f"{sft['kind']}:{'traced-through' if sft['reached'] else 'stopped'}:"
                      f"flag={sft['flag']}"] += 1
     ext["soft_end_outcomes(not judged)"] = dict(soft)
+    # per-field-scale workload: how far the table passed the fold in units of the slack, by
+    # setting of the caller's mass-squared test; what the re-minimisation jumps looked like
+    hier = [r for r in results if (r.get("obs") or {}).get("hier") and not r.get("viol")]
+    ext["hier"] = {
+        "traces": len(hier),
+        "scale_ratio": stats([r["obs"]["hier"]["scale_ratio"] for r in hier]),
+        "overshoot_over_slack:spinodal-on": stats(
+            [(r["obs"].get("res") or {}).get("overshoot_hi_over_slack", 0.0) for r in hier
+             if r["obs"]["hier"]["spinodal"] and "res" in r["obs"]]),
+        "overshoot_over_slack:spinodal-off": stats(
+            [(r["obs"].get("res") or {}).get("overshoot_hi_over_slack", 0.0) for r in hier
+             if not r["obs"]["hier"]["spinodal"] and "res" in r["obs"]]),
+        "jump_over_smallest_scale": stats(
+            [r["obs"]["hier"]["reminimisation_jump_between_scales"]["over_min_scale"] for r in hier
+             if "reminimisation_jump_between_scales" in r["obs"]["hier"]]),
+        "jump_over_largest_scale": stats(
+            [r["obs"]["hier"]["reminimisation_jump_between_scales"]["over_max_scale"] for r in hier
+             if "reminimisation_jump_between_scales" in r["obs"]["hier"]])}
     ext["unconverged_minimisations_without_consequence"] = int(sum(
         1 for r in results
         if ((r.get("obs") or {}).get("res") or {}).get("start_gradient_unresolved_without_consequence")))
